@@ -382,7 +382,7 @@ func paramSummary(cfg *gen.Cfg) []string {
 
 // enumAlphabet15 is the operation alphabet of the exhaustive C15 family (configuration "cenum").
 var enumAlphabet15 = []Op{
-	{Kind: "GetParam", Name: "p1"}, {Kind: "GetParam", Name: "p2"}, {Kind: "GetParam", Name: "p3"}, {Kind: "GetParam", Name: "p4"},
+	{Kind: "GetParam", Name: "p1"}, {Kind: "GetParam", Name: "p2"}, {Kind: "GetParam", Name: "p3"}, {Kind: "GetParam", Name: "p4"}, {Kind: "GetParam", Name: "p5"},
 	{Kind: "Get", Name: "s1"}, {Kind: "Get", Name: "s2"}, {Kind: "Get", Name: "s3"},
 	{Kind: "OvParam", Name: "p1", VKind: "value", V: "real"}, {Kind: "OvParam", Name: "p1", VKind: "param", V: "p3"},
 	{Kind: "OvParam", Name: "p3", VKind: "provider", VI: 42}, {Kind: "OvSvc", Name: "s1", VI: 500},
